@@ -34,7 +34,7 @@ ASSUMPTIONS = [
     "clock frozen with freezegun; host name identical (same process)",
 ]
 BUDGET = {"quick": (160, 4), "thorough": (24000, 16)}
-REQUIRED = ["sibling_histories", "ancestor_matches_pattern", "ancestor_ascmhl", "relative_invocation", "trailing_slash", "dot_invocation", "relocated_verify", "ancestor_glob_chars", "case_colliding_siblings", "create_sf", "rename_recorded_with_dr", "two_refused_children", "rename_with_duplicate_content"]
+REQUIRED = ["sibling_histories", "ancestor_matches_pattern", "ancestor_ascmhl", "relative_invocation", "trailing_slash", "dot_invocation", "relocated_verify", "ancestor_glob_chars", "case_colliding_siblings", "create_sf", "rename_recorded_with_dr", "two_refused_children", "rename_with_duplicate_content", "relocated_verify_single_file"]
 
 CFG = {
     "kinds": ["create"] * 8 + ["create_sf"] * 2 + ["put_new", "mkdir"],
@@ -237,6 +237,18 @@ def run_case(scn, ctx):
         res = w.verify(third)
         require(res.exc is None and res.exit_code == 0, "relocated-verify", "copy of the sealed tree at %r: %s\n%s" % (third, res.brief(), res.output[-300:]), res)
         feats.add("relocated_verify")
+        # ... also file by file, each named relative to the copy's root, while the working directory is the original tree
+        # (where a file of the same relative name exists, too)
+        import fnmatch as _fn
+
+        rel_files = [f[len(locA) + 1:] for f in w.media_files(locA)]
+        rel_files = [rf for rf in rel_files if not (pat and any(_fn.fnmatchcase(c, pat.rstrip("/")) for c in rf.split("/")))][:3]
+        for rf in rel_files:
+            if rf.startswith("-"):
+                continue
+            res = w.run("verify", [w.abs(third), "-sf", rf], cwd=w.abs(locA))
+            require(res.exc is None and res.exit_code == 0, "relocated-verify", "verify -sf %r on the copy at %r, started inside the original tree: %s\n%s" % (rf, third, res.brief(), res.output[-300:]), res)
+            feats.add("relocated_verify_single_file")
         # two sibling histories refused for different reasons (one manifest edited: 31, one chain file gone: 32): which of
         # them decides the exit code of a command on their parent must not depend on the enumeration order either
         pair = None
